@@ -34,7 +34,12 @@ def build_perm(tier, seed):
             elif k == "not_empty":
                 d.vals.append(Vld(k))
             elif k == "regex":
-                d.vals.append(Vld(k, '"^[a-z ]+$"', "^[a-z ]+$"))
+                if len(b.decls) % 3 == 0:
+                    d.vals.append(Vld(k, '".*a"', ".*a"))
+                    for pr in ("\nba", "x\ny\nza", "\n\n\na", "b\nA"):
+                        d.tags.append("probe=" + pr)
+                else:
+                    d.vals.append(Vld(k, '"^[a-z ]+$"', "^[a-z ]+$"))
             elif k == "predicate":
                 add_predicate(d, "x.contains('a')", SPELLINGS[len(b.decls) % 3])
         d.derives = ["Debug", "TryFrom", "FromStr"]
@@ -54,7 +59,7 @@ def build_perm(tier, seed):
                 mk_string(p, contradictory=("len_char_min" in p and "len_char_max" in p and len(b.decls) % 2 == 0),
                           sans=(("trim",) if len(b.decls) % 3 == 0 else ()))
     # ---- integers
-    for ty in (["i8", "u8", "i32", "u64", "i128"] if tier == "quick" else list(INT_TYPES)):
+    for ty in (["i8", "u8", "i32", "u64", "i128", "u128"] if tier == "quick" else list(INT_TYPES)):
         for lk, uk in itertools.product(["greater", "greater_or_equal"], ["less", "less_or_equal"]):
             for order in itertools.permutations(["lower", "upper", "predicate"]):
                 for contradictory in (False, True):
@@ -432,6 +437,36 @@ def build_defaults(tier, seed):
         d.vals.append(Vld("finite"))
         d.default = (dtxt, float_denote("f64", ex))
         d.derives = ["Debug", "Default", "TryFrom"]
+    # f32 defaults written as compound expressions of untyped literals: evaluated in f32, exactly as the constructor would receive them
+    for (dtxt, val, bnd) in (("0.1 + 0.6", None, "0.7"), ("16777216.0 + 1.0 + 1.0", None, "16777217.0"), ("0.1 * 3.0", None, "0.3"), ("1.0 / 3.0 + 1.0 / 3.0", None, "0.6666667")):
+        import struct
+        def f32(x):
+            return struct.unpack("<f", struct.pack("<f", x))[0]
+        # evaluate in f32 arithmetic, left to right, as rustc does for an f32-typed expression
+        toks = dtxt.replace("(", " ").replace(")", " ").split()
+        def ev(tokens):
+            # precedence: * and / before + and -
+            vals, ops = [f32(float(tokens[0]))], []
+            for i_ in range(1, len(tokens), 2):
+                ops.append(tokens[i_]); vals.append(f32(float(tokens[i_ + 1])))
+            j_ = 0
+            while j_ < len(ops):
+                if ops[j_] in "*/":
+                    r_ = f32(vals[j_] * vals[j_ + 1]) if ops[j_] == "*" else f32(vals[j_] / vals[j_ + 1])
+                    vals[j_:j_ + 2] = [r_]; ops.pop(j_)
+                else:
+                    j_ += 1
+            acc = vals[0]
+            for o_, v_ in zip(ops, vals[1:]):
+                acc = f32(acc + v_) if o_ == "+" else f32(acc - v_)
+            return acc
+        den = ("f32", struct.unpack("<I", struct.pack("<f", ev(toks)))[0])
+        for hv in (True, False):
+            d = b.new(inner_float("f32"), tags=list(tags))
+            if hv:
+                d.vals.append(Vld("less_or_equal", bnd, float_denote("f32", Fraction(bnd))))
+            d.default = (dtxt, den)
+            d.derives = ["Debug", "Default", "TryFrom", "FromStr"]
     for ty, bound in (("i32", 2), ("u8", 3)):
         d = b.new(inner_int(ty), tags=list(tags) + ["default_seq=0,1,2,3,4"])
         d.support.append("static TICKET: ::core::sync::atomic::AtomicU32 = ::core::sync::atomic::AtomicU32::new(0);\n"
